@@ -34,14 +34,15 @@ def make_copy(entry):
     for sub in ('topsim', 'test'):
         shutil.copytree(os.path.join(REPO, sub), os.path.join(d, sub),
                         ignore=shutil.ignore_patterns('__pycache__', '*.pyc'))
-    p = os.path.join(d, entry['file'])
-    s = open(p).read()
-    n = s.count(entry['old'])
-    if n != 1:
-        shutil.rmtree(d, ignore_errors=True)
-        raise ValueError(f"{entry['name']}: 'old' occurs {n} times in {entry['file']}")
-    open(p, 'w').write(s.replace(entry['old'], entry['new']))
-    subprocess.run([sys.executable, '-m', 'py_compile', p], check=True, capture_output=True)
+    for (file, old, new) in [(entry['file'], entry['old'], entry['new'])] + [tuple(x) for x in entry.get('more', [])]:
+        p = os.path.join(d, file)
+        s = open(p).read()
+        n = s.count(old)
+        if n != 1:
+            shutil.rmtree(d, ignore_errors=True)
+            raise ValueError(f"{entry['name']}: 'old' occurs {n} times in {file}")
+        open(p, 'w').write(s.replace(old, new))
+        subprocess.run([sys.executable, '-m', 'py_compile', p], check=True, capture_output=True)
     return d
 
 
